@@ -494,6 +494,11 @@ def _e3_items(ctx, scale=1):
     return items
 
 
+def _registered(sig):
+    return any(k.get("property") == PID and sig in (k.get("signatures") or [k.get("signature")])
+               for k in common.load_known())
+
+
 def _report_e3(ctx, item, rep, minimise=True):
     seen = set()
     for f in rep["failures"]:
@@ -501,6 +506,13 @@ def _report_e3(ctx, item, rep, minimise=True):
         if sig in seen:
             continue
         seen.add(sig)
+        if sig == c04_e3.AMENDED_STATIC_SIGNATURE and not _registered(sig):
+            # finding C04-amended-static-redeclared (findings.d), schedule dependent; reported under its own signature
+            # once the coordinator has registered it, until then recorded in the evidence only (as D38 was)
+            ctx.count("e3:finding:amended-static-redeclared:observed-in-a-random-case")
+            ctx.notes.append(f"finding C04-amended-static-redeclared observed (seed {item.get('seed')} "
+                             f"{item.get('flavour')}): {f['detail'][:300]}")
+            continue
         wit_item, wit_rep = item, rep
         if item.get("kind") == "overtaken":
             ctx.add_failure("oracle", "E3:" + sig.split(":")[1], sig,
@@ -672,9 +684,40 @@ def _check_engine_terms(ctx):
                                  "model_term": rep["engine_term"]})
 
 
+def _run_amended_static_witness(ctx):
+    """Finding C04-amended-static-redeclared: the deterministic witness (confirmation of one amended static input held
+    until the validation job has ended) replayed on the real director on every run."""
+    sig = c04_e3.AMENDED_STATIC_SIGNATURE
+    item = c04_e3.amended_static_item()
+    rep = c04_e3.run_case(item)
+    hit = [f for f in rep["failures"] if f["signature"] == sig and f.get("unjustified") == ["./w.py"]]
+    other = [f for f in rep["failures"] if f not in hit]
+    ctx.count(f"e3:witness:amended-static-redeclared:reproduced={bool(hit)}")
+    ctx.case(("e3witness", "amended-static-redeclared"), nontrivial=True)
+    for f in other[:1]:
+        ctx.add_failure("oracle", "E3:witness", f["signature"], "fixed witness amended-static-redeclared: "
+                        + f["detail"][:400], witness={"item": item})
+    if rep.get("timeout"):
+        ctx.notes.append(f"fixed witness amended-static-redeclared timed out: {rep['timeout'][:200]}")
+    elif hit and _registered(sig):
+        ctx.add_failure("oracle", "E3:witness", sig,
+                        "a step that amends static files declared by a plan is executed after a byte was appended to that "
+                        "plan: it is handed out for validation after the first file was confirmed anew and before the "
+                        "second one; no clause of the property justifies it: " + hit[0]["detail"][:300],
+                        witness={"item": item, "forced_interleaving": rep.get("cone_log"),
+                                 "failure": {"signature": sig}})
+    elif hit:
+        ctx.notes.append(f"finding C04-amended-static-redeclared reproduces on the real director; not yet registered in "
+                         f"KNOWN_FINDINGS.json under {sig}")
+    else:
+        ctx.notes.append("finding C04-amended-static-redeclared does NOT reproduce any more: the code changed; "
+                         "findings.d/C04-amended-static-redeclared.json and design.d/C04.md need a revision")
+
+
 def oracle(ctx):
     _run_nglob(ctx, NGLOB_CASES[ctx.tier])
     _run_fixed_witnesses(ctx)
+    _run_amended_static_witness(ctx)
     _run_e3(ctx, _e3_items(ctx))
     _check_engine_terms(ctx)
 
@@ -694,7 +737,7 @@ def replay(ctx, obj):
     w = obj["failure"].get("witness") or {}
     if "item" in w:
         item = dict(w["item"])
-        if item.get("kind") not in ("env_multi", "overtaken"):
+        if item.get("kind") not in ("env_multi", "overtaken", "amended_static"):
             item.setdefault("project", w.get("project"))
             item.setdefault("history", w.get("history"))
         if w.get("cone_edits") is not None:
